@@ -9,6 +9,7 @@ import (
 	"encoding/json"
 	"errors"
 	"fmt"
+	"io"
 	"net/http"
 	"net/http/httptest"
 	"os"
@@ -617,6 +618,188 @@ func runStatic(s *kit.Summary, sc staticCase) string {
 	return "ok " + strconv.Itoa(n) + " " + kit.Uints(counts)
 }
 
+// ---------------------------------------------------------------- the attack's workers as the concurrent callers
+
+// recorder is the transport of the attacker under test: it keeps the canonical form of every
+// request it is asked to send (method, URL, body, all header values except the attack's own
+// sequence header) and answers 200 with an empty body.
+type recorder struct {
+	mu   sync.Mutex
+	seen []string
+}
+
+func (rc *recorder) RoundTrip(req *http.Request) (*http.Response, error) {
+	var body []byte
+	if req.Body != nil {
+		body, _ = io.ReadAll(req.Body)
+		req.Body.Close()
+	}
+	h := map[string][]string{}
+	for k, vs := range req.Header {
+		if k == "X-Vegeta-Seq" || k == "X-Vegeta-Attack" {
+			continue
+		}
+		h[k] = append([]string{}, vs...)
+	}
+	t := vegeta.Target{Method: req.Method, URL: req.URL.String(), Body: body, Header: h}
+	line := "ok " + showTarget(&t)
+	rc.mu.Lock()
+	rc.seen = append(rc.seen, line)
+	rc.mu.Unlock()
+	return &http.Response{Status: "200 OK", StatusCode: 200, Proto: "HTTP/1.1", ProtoMajor: 1, ProtoMinor: 1,
+		Header: http.Header{}, Body: http.NoBody, Request: req}, nil
+}
+
+// stopAfter paces at unlimited rate and ends the attack after n hits.
+type stopAfter struct{ n uint64 }
+
+func (p stopAfter) Pace(_ time.Duration, hits uint64) (time.Duration, bool) { return 0, hits >= p.n }
+func (p stopAfter) Rate(time.Duration) float64                              { return 0 }
+
+// attackAndRecord runs Attacker.Attack with `workers` workers over tr until the attack ends
+// (stream targeters: the first error of the targeter stops it) and returns what the transport
+// saw, sorted; nil when the attack did not end.
+func attackAndRecord(tr vegeta.Targeter, workers int, p vegeta.Pacer) (seen []string, errs map[string]int, ended bool) {
+	rc := &recorder{}
+	atk := vegeta.NewAttacker(vegeta.Client(&http.Client{Transport: rc}), vegeta.Workers(uint64(workers)), vegeta.MaxWorkers(uint64(workers)))
+	errs = map[string]int{}
+	var wg sync.WaitGroup
+	wg.Add(1)
+	go func() {
+		defer wg.Done()
+		for res := range atk.Attack(tr, p, 0, "") {
+			if res.Error != "" {
+				errs[res.Error]++
+			}
+		}
+	}()
+	if !waitTimeout(&wg, hangLimit) {
+		return nil, nil, false
+	}
+	rc.mu.Lock()
+	seen = append([]string{}, rc.seen...)
+	rc.mu.Unlock()
+	sort.Strings(seen)
+	return seen, errs, true
+}
+
+type attackStreamCase struct {
+	Case    streamCase `json:"case"`
+	Workers int        `json:"workers"`
+}
+
+// runAttackStream: the workers of a real Attacker.Attack draw from one stream targeter; the
+// requests that reach the transport must be the input's targets, each exactly once and each with
+// exactly its own header values and body.
+func runAttackStream(s *kit.Summary, sc *streamCase) {
+	for p, b := range sc.Files {
+		if err := os.WriteFile(p, b, 0o644); err != nil {
+			panic(err)
+		}
+	}
+	defer func() {
+		for p := range sc.Files {
+			os.Remove(p)
+		}
+	}()
+	var tr vegeta.Targeter
+	hdr := mkHeader(sc.Defaults, sc.SpareCap)
+	if sc.Format == "json" {
+		tr = vegeta.NewJSONTargeter(strings.NewReader(sc.Src), sc.DefaultBody, hdr)
+	} else {
+		tr = vegeta.NewHTTPTargeter(strings.NewReader(sc.Src), sc.DefaultBody, hdr)
+	}
+	in := attackStreamCase{Case: *sc, Workers: sc.Callers}
+	key := map[string]interface{}{"format": sc.Format, "workers": sc.Callers}
+	var seen []string
+	var errs map[string]int
+	ended := false
+	if p, msg := kit.Recover(func() { seen, errs, ended = attackAndRecord(tr, sc.Callers, vegeta.ConstantPacer{}) }); p {
+		s.Violate(kit.Violation{Kind: "attack_workers_panic", What: "Attack panicked while its workers drew from a stream targeter: " + msg, Input: in, Key: key})
+		return
+	}
+	if !ended {
+		s.Violate(kit.Violation{Kind: "attack_workers_never_end", What: "an attack over a finite stream of targets did not end", Input: in,
+			Expected: "the attack stops when the targets are exhausted", Observed: fmt.Sprintf("still running after %s", hangLimit), Key: key})
+		return
+	}
+	s.Count(sc.Format + ":attack_rounds")
+	exp := make([]string, len(sc.Expected))
+	for i, e := range sc.Expected {
+		exp[i] = "ok " + e
+	}
+	sort.Strings(exp)
+	if strings.Join(seen, "\n") != strings.Join(exp, "\n") {
+		lost, extra := diffMultiset(exp, seen)
+		s.Violate(kit.Violation{Kind: "attack_workers_not_exactly_once",
+			What:     "the requests sent by the attack's concurrent workers are not the input's targets, each exactly once and unmixed",
+			Input:    in,
+			Expected: fmt.Sprintf("%d requests, one per target, each with exactly that target's method, URL, body and header values", len(exp)),
+			Observed: fmt.Sprintf("%d requests; targets not sent as described %v; requests that are no target of the input %v", len(seen), clip(lost), clip(extra)),
+			Key:      key})
+		return
+	}
+	for e := range errs {
+		if e != vegeta.ErrNoTargets.Error() {
+			s.Violate(kit.Violation{Kind: "attack_workers_error", What: "a worker's hit failed although every target is legal and the transport answers 200", Input: in,
+				Expected: "only the exhaustion error", Observed: e, Key: key})
+			return
+		}
+	}
+}
+
+type attackStaticCase struct {
+	K       int `json:"k"`
+	Workers int `json:"workers"`
+	Hits    int `json:"hits"`
+}
+
+// runAttackStatic: n hits by the workers of a real Attacker.Attack over the static targeter:
+// the requests are the targets in rotation (hit i sends target i mod k), whole and unmixed.
+func runAttackStatic(s *kit.Summary, sc attackStaticCase) {
+	tgts := make([]vegeta.Target, sc.K)
+	for i := range tgts {
+		tgts[i] = vegeta.Target{Method: "GET", URL: "http://static/" + strconv.Itoa(i)}
+		if i%2 == 1 {
+			tgts[i].Method = "POST"
+			tgts[i].Body = []byte("body-" + strconv.Itoa(i))
+		}
+		if i%3 != 0 {
+			tgts[i].Header = http.Header{"X-I": {strconv.Itoa(i)}, "X-K" + strconv.Itoa(i%4): {"a", strconv.Itoa(i)}}
+		}
+	}
+	var exp []string
+	for i := 0; i < sc.Hits; i++ {
+		t := tgts[i%sc.K]
+		if t.Header == nil {
+			t.Header = http.Header{}
+		}
+		exp = append(exp, "ok "+showTarget(&t))
+	}
+	sort.Strings(exp)
+	var seen []string
+	ended := false
+	if p, msg := kit.Recover(func() {
+		seen, _, ended = attackAndRecord(vegeta.NewStaticTargeter(tgts...), sc.Workers, stopAfter{uint64(sc.Hits)})
+	}); p {
+		s.Violate(kit.Violation{Kind: "attack_static_workers_panic", What: "Attack panicked while its workers drew from the static targeter: " + msg, Input: sc})
+		return
+	}
+	if !ended {
+		s.Violate(kit.Violation{Kind: "attack_static_workers_never_end", What: "an attack whose pacer ends it after n hits did not end", Input: sc})
+		return
+	}
+	s.Count("static:attack_rounds")
+	if strings.Join(seen, "\n") != strings.Join(exp, "\n") {
+		lost, extra := diffMultiset(exp, seen)
+		s.Violate(kit.Violation{Kind: "attack_static_workers_rotation",
+			What:     "the requests sent by the attack's concurrent workers over the static targeter are not the targets in rotation, whole and unmixed",
+			Input:    sc,
+			Expected: fmt.Sprintf("%d requests: hit i sends target i mod %d", len(exp), sc.K),
+			Observed: fmt.Sprintf("%d requests; missing %v; unexpected %v", len(seen), clip(lost), clip(extra))})
+	}
+}
+
 func shuffledSchedule(r *kit.Rng, callers, perCaller int) []int {
 	var xs []int
 	for c := 0; c < callers; c++ {
@@ -648,6 +831,9 @@ func rounds(c *run.Ctx, s *kit.Summary, r *kit.Rng, nStatic, nStream int, withDr
 			sc.Callers = 1
 		}
 		line := runStatic(s, sc)
+		if !hung {
+			runAttackStatic(s, attackStaticCase{K: sc.K, Workers: sc.Callers, Hits: sc.Callers*sc.Draws/2 + r.Pick(40)})
+		}
 		s.Case(fmt.Sprint("s:", sc), sc.Callers > 1 && sc.K > 1)
 		s.Count("static:rounds")
 		if withDriver {
@@ -671,6 +857,9 @@ func rounds(c *run.Ctx, s *kit.Summary, r *kit.Rng, nStatic, nStream int, withDr
 		}
 		sc := genStreamCase(r, format, work, i)
 		line := runStream(s, &sc)
+		if !hung {
+			runAttackStream(s, &sc)
+		}
 		s.Case("t:"+sc.Src+strconv.Itoa(sc.Callers), sc.Callers > 1 && len(sc.Expected) > 1)
 		s.Count(format + ":rounds")
 		s.CountN(format+":targets", len(sc.Expected))
@@ -712,9 +901,14 @@ func cliLazyRuns(c *run.Ctx, s *kit.Summary, format string, runs, parallel int) 
 	}
 	var mu sync.Mutex
 	counts := map[string]int{}
+	mixed := map[string]string{} // path -> header values that are not exactly that target's
 	srv := httptest.NewServer(http.HandlerFunc(func(w http.ResponseWriter, rq *http.Request) {
+		id, dflt := rq.Header["X-Target-Id"], rq.Header["X-Dflt"]
 		mu.Lock()
 		counts[rq.URL.Path]++
+		if len(id) != 1 || id[0] != rq.URL.Path || len(dflt) != 1 || dflt[0] != "d" {
+			mixed[rq.URL.Path] = fmt.Sprintf("X-Target-Id %q X-Dflt %q", id, dflt)
+		}
 		mu.Unlock()
 	}))
 	defer srv.Close()
@@ -734,19 +928,19 @@ func cliLazyRuns(c *run.Ctx, s *kit.Summary, format string, runs, parallel int) 
 				var src bytes.Buffer
 				if format == "http" {
 					for _, p := range paths {
-						src.WriteString("GET " + srv.URL + p + "\n")
+						src.WriteString("GET " + srv.URL + p + "\nX-Target-Id: " + p + "\n\n")
 					}
 				} else {
 					enc := vegeta.NewJSONTargetEncoder(&src)
 					for _, p := range paths {
-						enc.Encode(&vegeta.Target{Method: "GET", URL: srv.URL + p})
+						enc.Encode(&vegeta.Target{Method: "GET", URL: srv.URL + p, Header: http.Header{"X-Target-Id": {p}}})
 					}
 				}
 				tf := filepath.Join(dir, fmt.Sprintf("targets_%d", w))
 				os.WriteFile(tf, src.Bytes(), 0o644)
 				ctx, cancel := context.WithTimeout(context.Background(), 30*time.Second)
 				cmd := exec.CommandContext(ctx, c.Vegeta, "attack", "-lazy", "-rate=0", "-workers=16", "-max-workers=16",
-					"-keepalive=false", "-dns-ttl=-1", "-duration=0", "-targets", tf, "-format", format, "-output", os.DevNull)
+					"-keepalive=false", "-dns-ttl=-1", "-duration=0", "-header", "X-Dflt: d", "-targets", tf, "-format", format, "-output", os.DevNull)
 				cmd.Env = append(os.Environ(), "VEGETA_VERIF_DRIVER=")
 				out, err := cmd.CombinedOutput()
 				cancel()
@@ -879,6 +1073,15 @@ func replayC15(c *run.Ctx, s *kit.Summary) {
 		cliLazyRuns(c, s, cc.Format, cc.Runs, 8)
 		return
 	}
+	if strings.HasPrefix(rec.Kind, "attack_static") {
+		var sc attackStaticCase
+		json.Unmarshal(rec.Input, &sc)
+		for i := 0; i < 50; i++ {
+			runAttackStatic(s, sc)
+			s.Case("replay", true)
+		}
+		return
+	}
 	if strings.HasPrefix(rec.Kind, "static") {
 		var sc staticCase
 		json.Unmarshal(rec.Input, &sc)
@@ -889,7 +1092,16 @@ func replayC15(c *run.Ctx, s *kit.Summary) {
 		return
 	}
 	var sc streamCase
-	if err := json.Unmarshal(rec.Input, &sc); err != nil || sc.Format == "" {
+	viaAttack := strings.HasPrefix(rec.Kind, "attack_")
+	if viaAttack {
+		var ac attackStreamCase
+		json.Unmarshal(rec.Input, &ac)
+		sc = ac.Case
+		sc.Callers = ac.Workers
+	} else if err := json.Unmarshal(rec.Input, &sc); err != nil {
+		return
+	}
+	if sc.Format == "" {
 		return
 	}
 	nf := map[string][]byte{}
@@ -899,7 +1111,11 @@ func replayC15(c *run.Ctx, s *kit.Summary) {
 	sc.Src = strings.Replace(sc.Src, sc.Work, c.Work, -1)
 	sc.Files, sc.Work = nf, c.Work
 	for i := 0; i < 50; i++ { // schedules differ from run to run: repeat
-		runStream(s, &sc)
+		if viaAttack {
+			runAttackStream(s, &sc)
+		} else {
+			runStream(s, &sc)
+		}
 		s.Case("replay", true)
 	}
 }
